@@ -1806,7 +1806,7 @@ def run(out: Outcome) -> None:  # noqa: PLR0912, PLR0915
         "runs (C01-C04; here: the real parsers in the four modes against `mirror` on generated documents and all their "
         "prefixes); `mirrors json.loads` beyond the spans (float(token), decoding of escapes) and the reading of RFC 8259 "
         "as `Doc`/`render` are checked against Python's json module on every generated document, not proved",
-        "Python's recursion limit is not modelled (documents nest at most 5–6 deep, expressions at most a few dozen)",
+        "Python's recursion limit is not modelled (random documents nest at most 5-6 deep; eight documents 30-80 deep are run in all modes, in-process and under the default limit of 1000 in a process of their own; a RecursionError there is skipped)",
     ]
 
 
